@@ -229,7 +229,7 @@ const SHORTS: &[&[u8]] = &[
 pub fn run(ctx: &mut Ctx) {
     let thorough = ctx.is_thorough();
     // bounded-exhaustive: all segmentations into <= 4 runs over all legal mode assignments
-    let n_short = if thorough { SHORTS.len() } else { 8 };
+    let n_short = if thorough { SHORTS.len() } else { 12 };
     let mut item = 0usize;
     for s in &SHORTS[..n_short] {
         for comp in compositions(s.len(), if thorough { 4 } else { 3 }) {
@@ -287,7 +287,62 @@ pub fn run(ctx: &mut Ctx) {
             eval(ctx, &input, &Script { runs: vec![(Mode::Ascii, n)], cap: 1558, ..base.clone() }, "pad_runs");
         }
     }
-    let n = ctx.budget(120_000, 12_000_000);
+    // every C40 / Text / X12 codeword pair that a triple of base-set characters can produce (40^3 per mode;
+    // shift-led triples for C40/Text use a representative of each shift set)
+    {
+        let base = Script { runs: vec![], header: Header::None, eci: None, pair_digits: true, b256_len0: false, implicit_unlatch: true, implicit_pair: false, trailing_254: true, cap: 0 };
+        let c40_alpha: Vec<u8> = b" 0123456789ABCDEFGHIJKLMNOPQRSTUVWXYZ".to_vec();
+        let text_alpha: Vec<u8> = b" 0123456789abcdefghijklmnopqrstuvwxyz".to_vec();
+        let x12_alpha: Vec<u8> = b"\r*> 0123456789ABCDEFGHIJKLMNOPQRSTUVWXYZ".to_vec();
+        let mut item = 0usize;
+        for (mode, alpha) in [(Mode::C40, &c40_alpha), (Mode::Text, &text_alpha), (Mode::X12, &x12_alpha)] {
+            for a in alpha.iter() {
+                for b in alpha.iter() {
+                    if !ctx.mine(item) {
+                        item += 1;
+                        continue;
+                    }
+                    item += 1;
+                    for c in alpha.iter() {
+                        let input = [*a, *b, *c, b'Q', b'Q', b'Q'];
+                        // triple first, then a second triple, capacity 8 (latch + 4 + unlatch + pads)
+                        eval(ctx, &input, &Script { runs: vec![(mode, 6)], cap: 8, ..base.clone() }, "all_base_triples");
+                    }
+                }
+            }
+        }
+        ctx.exhaustive.insert("all_base_set_triples_c40_text_x12".into(), true);
+        // every single ASCII codeword value as the tail after the implicit forms
+        for t in 0..=255u8 {
+            if !ctx.mine(t as usize) {
+                continue;
+            }
+            for u in [b'A', b'{', b'~', b'1', 0x80, 0xFF, t] {
+                // EDIFACT, then <= 2 symbol characters in ASCII without Unlatch
+                let mut inp = b"ABCD".to_vec();
+                inp.push(t);
+                eval(ctx, &inp, &Script { runs: vec![(Mode::Edifact, 4), (Mode::Ascii, 1)], cap: 5, ..base.clone() }, "tail_codeword_sweep");
+                let mut inp = b"ABCDEFGHIJKL".to_vec();
+                inp.extend_from_slice(&[t, u]);
+                // 1 latch + 9 + 2 = 12 codewords: exactly the 16x16 symbol, two symbol characters left after the run
+                eval(ctx, &inp, &Script { runs: vec![(Mode::Edifact, 12), (Mode::Ascii, 2)], pair_digits: false, cap: 12, ..base.clone() }, "tail_codeword_sweep");
+                eval(ctx, &[&b"ABCDEFGHIJKL"[..], &[u, t][..]].concat(), &Script { runs: vec![(Mode::Edifact, 12), (Mode::Ascii, 2)], pair_digits: false, cap: 12, ..base.clone() }, "tail_codeword_sweep");
+                // C40 / Text / X12: unlatch + ASCII at the end (rule c), implicit (rule d), and 254 + two codewords
+                for mode in [Mode::C40, Mode::Text, Mode::X12] {
+                    let mut inp = b"AAA".to_vec();
+                    if mode == Mode::Text {
+                        inp = b"aaa".to_vec();
+                    }
+                    inp.push(t);
+                    eval(ctx, &inp, &Script { runs: vec![(mode, 3), (Mode::Ascii, 1)], cap: 5, ..base.clone() }, "tail_codeword_sweep");
+                    eval(ctx, &inp, &Script { runs: vec![(mode, 3), (Mode::Ascii, 1)], cap: 8, ..base.clone() }, "tail_codeword_sweep");
+                    inp.push(u);
+                    eval(ctx, &inp, &Script { runs: vec![(mode, 3), (Mode::Ascii, 2)], pair_digits: false, cap: 8, ..base.clone() }, "tail_codeword_sweep");
+                }
+            }
+        }
+    }
+    let n = ctx.budget(500_000, 15_000_000);
     for i in 0..n {
         let input = match i % 4 {
             0 => inputs::gen_input(&mut ctx.rng, 60),
